@@ -200,7 +200,8 @@ Impl(k, s) == LET t == TypeLayer(k, s) IN
 (*    cls2, coords2]                                                       *)
 (***************************************************************************)
 Clauses == {"AcceptValid", "RejectInvalid", "RaisesValidationError", "NormalForm", "NormalOfInput",
-            "ClassMatchesTag", "ModesAgree", "DumpRevalidateEqual"}
+            "ClassMatchesTag", "ModesAgree", "DumpRevalidateEqual",
+            "Drift/ImplOutcome"}       \* not a verdict: the code still is the chain transcribed in Impl (reported as MODEL-DRIFT)
 Acc(r) == r.res = "ok"
 Holds(cl, o) ==
     LET k == o.in.kind  s == o.in.toks  R == o.out.runs IN
@@ -213,5 +214,6 @@ Holds(cl, o) ==
       [] cl = "NormalOfInput" -> ValidLoose(k, s) => \A i \in DOMAIN R : Acc(R[i]) => R[i].coords \in AllowedNormals(k, s)
       [] cl = "ClassMatchesTag" -> \A i \in DOMAIN R : Acc(R[i]) => R[i].cls = k /\ R[i].tag = k
       [] cl = "ModesAgree"    -> \A i, j \in DOMAIN R : Acc(R[i]) = Acc(R[j]) /\ R[i].cls = R[j].cls
+      [] cl = "Drift/ImplOutcome" -> LET m == Impl(k, s) IN \A i \in DOMAIN R : (Acc(R[i]) <=> m.ok) /\ (Acc(R[i]) => R[i].coords = m.val)
       [] cl = "DumpRevalidateEqual" -> \A i \in DOMAIN R : Acc(R[i]) => R[i].eq = "equal" /\ R[i].cls2 = R[i].cls /\ R[i].coords2 = R[i].coords
 =============================================================================
